@@ -376,7 +376,7 @@ pub fn c09(ctx: &mut Ctx) {
     {
         let counts = [0usize, 1, 2, 3, 4, 9, 31];
         let depth = ctx.tier.pick(3u32, 4u32);
-        ctx.bound("iterator histories", format!("report_blocks() / ssrcs() of packets with {{0,1,2,3,4,9,31}} entries x padding {{0,8}}: all call sequences of length <= {} over {{next, nth(0), nth(1), nth(2), nth(7), take(2).count()}} x 4 endings", depth));
+        ctx.bound("iterator histories", format!("report_blocks() / ssrcs() of packets with {{0,1,2,3,4,9,31}} entries x padding {{0,8}}: all call sequences of length <= {} over {{next, nth(0), nth(1), nth(2), nth(7), take(2).count()}} x 10 endings, size_hint() after every call", depth));
         ctx.run_space("iterator-histories", (counts.len() * 2 * 3) as u64, |idx, l| {
             let n = counts[(idx as usize / 6) % counts.len()];
             let pad = if (idx / 3) % 2 == 0 { 0u8 } else { 8 };
